@@ -8,7 +8,10 @@ use attohttpc::verif_hooks;
 
 use crate::script::{hex, hex_or_dash, segs_to_string, Log, PauseMarker, Script, ScriptErr, Seg};
 
-pub const BUFREADER_CAP: usize = 8192;
+/// capacity of the BufReader the library puts in front of the connection (extracted from the source)
+pub fn bufreader_cap() -> usize {
+    std::env::var("ATTO_BUFREADER_CAP").ok().and_then(|s| s.parse().ok()).unwrap_or(8192)
+}
 
 pub fn max_buffer_len() -> usize {
     std::env::var("ATTO_MAX_BUFFER_LEN").ok().and_then(|s| s.parse().ok()).unwrap_or(65536)
@@ -41,7 +44,7 @@ impl RespCase {
             "resp {} {} {} {} {} {}",
             self.method,
             self.max_headers,
-            BUFREADER_CAP,
+            bufreader_cap(),
             max_buffer_len(),
             segs_to_string(&self.segs),
             reads
